@@ -297,6 +297,13 @@ func c18Lint(ctx *core.Ctx, rep *core.Report, entries []tldEntry, table map[stri
 			{good, []string{good, n}}, {good, []string{n, good}}, {"192.0.2.1", []string{n}}, {"10.1.2.3", []string{good}},
 			{N, []string{N}}, {good, []string{good}},
 		}
+		if i == 0 {
+			// common names around "is an IP address": textual IPv4 / IPv6 literals are exempt from the TLD test, everything
+			// that merely resembles one (zone suffix, brackets, prefix length, wrong group counts, blanks) is a name
+			for _, cn := range c18IPishCNs {
+				shapes = append(shapes, shape{cn, []string{good}}, shape{cn, []string{n}})
+			}
+		}
 		for _, t := range instants {
 			if t.Year() < 1950 || t.Year() > 2049 {
 				continue
@@ -332,10 +339,7 @@ func c18Lint(ctx *core.Ctx, rep *core.Report, entries []tldEntry, table map[stri
 					rep.Inc("validated")
 					fails := false
 					if sh.cn != "" && o.Cert.Subject.CommonName != "" {
-						isIP := false
-						if ipb := parseIPv4(sh.cn); ipb != nil {
-							isIP = true
-						}
+						isIP := refIsIPLiteral(sh.cn)
 						if !isIP && !refValidTLD(table, sh.cn, t) {
 							fails = true
 						}
@@ -363,10 +367,59 @@ func parseIPv4(s string) []byte {
 	out := make([]byte, 4)
 	for i, p := range parts {
 		v, err := strconv.Atoi(p)
-		if err != nil || v < 0 || v > 255 {
+		if err != nil || v < 0 || v > 255 || len(p) > 3 || strings.ContainsAny(p, "+-") || (len(p) > 1 && p[0] == '0') {
 			return nil
 		}
 		out[i] = byte(v)
 	}
 	return out
+}
+
+var c18IPishCNs = []string{"::1", "2001:db8::1", "::ffff:192.0.2.1", "2001:DB8:0:0:0:0:0:1", "0.0.0.0", "255.255.255.255",
+	"fe80::1%eth0", "::1%1", "1.2.3", "1.2.3.4.5", "256.1.1.1", "192.0.2.1.", "[::1]", "2001:db8::1::2", "12345::1", "1.2.3.4/32", " 10.1.2.3",
+	"10.1.2.3 ", "0x7f.0.0.1", "a.192.0.2.1", "1:2:3:4:5:6:7", "1:2:3:4:5:6:7:8:9", ":1", "2001:db8::g", "192.0.2.-1"}
+
+// refIsIPLiteral: a textual IPv4 address (four decimal octets) or an RFC 4291 IPv6 literal; zone identifiers,
+// brackets, prefix lengths and surrounding blanks are not part of an address.
+func refIsIPLiteral(s string) bool {
+	if parseIPv4(s) != nil {
+		return true
+	}
+	if !strings.Contains(s, ":") || strings.ContainsAny(s, "%[]/ ") {
+		return false
+	}
+	groups := 0
+	countGroups := func(part string, last bool) bool {
+		if part == "" {
+			return true
+		}
+		gs := strings.Split(part, ":")
+		for i, g := range gs {
+			if last && i == len(gs)-1 && strings.Contains(g, ".") {
+				if parseIPv4(g) == nil {
+					return false
+				}
+				groups += 2
+				continue
+			}
+			if len(g) < 1 || len(g) > 4 {
+				return false
+			}
+			for _, c := range g {
+				if !strings.ContainsRune("0123456789abcdefABCDEF", c) {
+					return false
+				}
+			}
+			groups++
+		}
+		return true
+	}
+	halves := strings.Split(s, "::")
+	switch len(halves) {
+	case 1:
+		return countGroups(halves[0], true) && groups == 8
+	case 2:
+		return countGroups(halves[0], halves[1] == "") && countGroups(halves[1], true) && groups <= 7
+	}
+	return false
 }
